@@ -415,7 +415,7 @@ struct OutA {
 
 pub fn run(seed: u64, tier: &str, ev: &mut Evidence) -> Vec<Violation> {
     let thorough = tier == "thorough";
-    let (n_a, n_b) = if thorough { (40_000usize, 30_000usize) } else { (2000, 1200) };
+    let (n_a, n_b) = if thorough { (250_000usize, 200_000usize) } else { (2000, 1200) };
     // ---- (A) -----------------------------------------------------------------------------------
     let mut specs: Vec<(ProgSpec, Option<u64>)> = work::corpus_specs().into_iter().filter(|(_, s)| s.source().is_some()).map(|(_, s)| (s, None)).collect();
     for j in 0..n_a {
